@@ -29,6 +29,7 @@ from ._storage import (
     clear_treeflatten_memo,
     clear_treepath_memo,
     get_shape_memo,
+    get_treeflatten_memo,
     set_shape_memo,
     set_treeflatten_memo,
     set_treepath_memo,
@@ -121,11 +122,15 @@ class _MetaPyTree(type):
 
             is_flatten_leaftype = is_check_leaftype = is_leaftype
 
+        # This check may itself be running as the `is_leaf` of an enclosing PyTree
+        # check that is currently flattening, in which case we must leave its flag set.
+        already_flattening = get_treeflatten_memo()
         set_treeflatten_memo()
         try:
             leaves, structure = jtu.tree_flatten(obj, is_leaf=is_flatten_leaftype)
         finally:
-            clear_treeflatten_memo()
+            if not already_flattening:
+                clear_treeflatten_memo()
         if cls.structure is not None:
             if cls.structure.isidentifier():
                 try:
@@ -189,9 +194,13 @@ class _MetaPyTree(type):
                     set_treepath_memo(leaf_index, cls.structure)
                 if not is_check_leaftype(leaf):
                     return False
-                clear_treepath_memo()
+                if cls.structure is not None:
+                    clear_treepath_memo()
         finally:
-            clear_treepath_memo()
+            # Only a structured PyTree sets the treepath; a structure-less one must not
+            # clear the treepath of a structured PyTree that it is nested inside.
+            if cls.structure is not None:
+                clear_treepath_memo()
         return True
 
     # Can't return a generic (e.g. _FakePyTree[item]) because generic aliases don't do
